@@ -8,6 +8,7 @@ receiver/condition dispatch of the evaluator:
   R3  receiver / condition dispatch: index, field, call, if, assert, comprehension specs, slice
 """
 from . import kwalk, evalmarks as em
+from . import facts
 from .facts import callee_name
 
 EXPLANATION = (
